@@ -185,6 +185,9 @@ pub struct ObjRec {
     pub destroyed_by_actor: usize,
     pub destroyed_in_op: Option<usize>,
     pub detach_steps: Vec<u64>,
+    /// global event sequence numbers (finer than steps)
+    pub detach_seqs: Vec<u64>,
+    pub destroyed_seq: u64,
     pub handouts: u32,
     pub holder: Option<usize>,
     /// Object::take invoked by a caller
@@ -270,6 +273,8 @@ pub struct OpRec {
     /// result of is_closed() sampled by the actor right before invoking (get ops)
     pub closed_at_invoke: bool,
     pub fault_used: bool,
+    /// step of the resize for which this waiting get counts as admitted earlier
+    pub exempt_resize: Option<u64>,
     /// C03: books before the call (snapshot, idle ids, status)
     pub snap0: Option<(deadpool::managed::VerifSnapshot, Vec<u32>, StatusV)>,
 }
@@ -308,6 +313,7 @@ pub struct MWorld {
     pub all_handles_dropped: bool,
     pub max_size_log: Vec<(u64, usize)>,
     pub orc: crate::moracle::OracleState,
+    pub seq: u64,
 }
 
 thread_local! {
@@ -370,6 +376,7 @@ impl MWorld {
             ops_done: 0,
             all_handles_dropped: false,
             orc: Default::default(),
+            seq: 0,
         }
     }
 
@@ -386,6 +393,8 @@ impl MWorld {
         engine::log_event(&[100, id as u64]);
         trace!("  ~SimObj#{} destroyed (actor {}, op {:?})", id, actor_name(actor), op);
         let gone = self.all_handles_dropped;
+        self.seq += 1;
+        let seq = self.seq;
         let o = &mut self.objs[id as usize];
         if o.destroyed.is_some() {
             let d = format!("object #{id} destroyed twice");
@@ -393,6 +402,7 @@ impl MWorld {
             return;
         }
         o.destroyed = Some(step);
+        o.destroyed_seq = seq;
         o.destroyed_by_actor = actor;
         o.destroyed_in_op = op;
         o.pool_gone = gone;
@@ -421,6 +431,9 @@ impl MWorld {
             self.ops[op].calls.push(ci);
         }
         self.objs[id as usize].detach_steps.push(step);
+        self.seq += 1;
+        let seq = self.seq;
+        self.objs[id as usize].detach_seqs.push(seq);
         if self.sc.profile == "C08" && !self.draining {
             crate::moracle::c08_on_call(self, ci);
         }
@@ -457,6 +470,7 @@ impl MWorld {
             cancelled_by_controller: false,
             closed_at_invoke: false,
             fault_used: false,
+            exempt_resize: None,
             snap0: None,
         };
         self.ops.push(rec);
@@ -1264,6 +1278,10 @@ pub fn run_op(actor: usize, idx: usize, op: Op, pool: &mut Option<SPool>) {
                         });
                         let ci = w.calls.len() - 1;
                         w.ops[opi].calls.push(ci);
+                        if w.orc.idle_prev_valid && !w.orc.retain_idle_at_lock.contains_key(&opi) {
+                            let idle = w.orc.idle_prev.clone();
+                            let _ = w.orc.retain_idle_at_lock.insert(opi, idle);
+                        }
                         if !keep {
                             w.objs[id as usize].retain_removed = true;
                         }
